@@ -41,7 +41,8 @@ func c15Schema() *schema.BodySchema {
 					schema.NewSchemaKey(schema.DependencyKeys{Labels: []schema.LabelDependent{{Index: 0, Value: "a"}}}): {
 						Attributes: map[string]*schema.AttributeSchema{"ra": {Constraint: str(), IsRequired: true}, "od": {Constraint: str(), IsOptional: true, IsDeprecated: true}},
 						Blocks: map[string]*schema.BlockSchema{
-							"in": {MinItems: 1, MaxItems: 1, Body: &schema.BodySchema{Attributes: map[string]*schema.AttributeSchema{"q": {Constraint: str(), IsRequired: true}}}},
+							"multi": {MinItems: 2, Body: &schema.BodySchema{}},
+							"in":    {MinItems: 1, MaxItems: 1, Body: &schema.BodySchema{Attributes: map[string]*schema.AttributeSchema{"q": {Constraint: str(), IsRequired: true}}}},
 						},
 					},
 				},
@@ -96,7 +97,7 @@ func c15Configs(tier string) []string {
 				continue
 			}
 			for nested := 0; nested < 1<<3; nested++ {
-				for inMode := 0; inMode < 4; inMode++ {
+				for inMode := 0; inMode < 6; inMode++ {
 					for _, label := range []string{"\"a\" \"n\"", "\"zz\" \"n\"", "", "\"a\""} {
 						var nb strings.Builder
 						nb.WriteString(rootText)
@@ -117,6 +118,11 @@ func c15Configs(tier string) []string {
 							nb.WriteString("  dynamic \"in\" {\n    for_each = []\n    content {\n      zz = 1\n    }\n  }\n")
 						case 3:
 							nb.WriteString("  in {\n  }\n  in {\n    q = \"2\"\n  }\n  dynamic \"nope\" {\n    for_each = []\n    content {\n    }\n  }\n")
+						case 4:
+							// one static block of a type that needs two, plus a dynamic block of that type
+							nb.WriteString("  in {\n    q = \"1\"\n  }\n  multi {\n  }\n  dynamic \"multi\" {\n    for_each = []\n    content {\n    }\n  }\n")
+						case 5:
+							nb.WriteString("  in {\n    q = \"1\"\n  }\n  dynamic \"multi\" {\n    for_each = []\n    content {\n    }\n  }\n  multi {\n  }\n  multi {\n  }\n")
 						}
 						nb.WriteString("}\n")
 						out = append(out, nb.String())
